@@ -8,6 +8,19 @@ package agent
 //@ model pos Int
 //@ model snap SeqU
 
+//@ assume func Iterator
+//@   nopanic
+//@   ensures result != nil
+//@ assume func Collator
+//@   nopanic
+//@   ensures result != nil
+//@ assume func Sorter
+//@   nopanic
+//@   ensures result != nil
+//@ assume func Inspector
+//@   nopanic
+//@   ensures result != nil
+
 // ---------------------------------------------------------------- iterator (C17)
 
 //@ type *iterator_
